@@ -63,6 +63,10 @@ class AstToODataVisitor(visitor.NodeVisitor):
         # Single quotes inside a string are represented by doubling them:
         return "'" + node.val.replace("'", "''") + "'"
 
+    def visit_Geography(self, node: ast.Geography) -> str:
+        """:meta private:"""
+        return "geography'" + node.val + "'"
+
     def visit_Duration(self, node: ast.Duration) -> str:
         """:meta private:"""
         return "duration'" + node.val + "'"
